@@ -24,7 +24,8 @@ from vlib.proto import hexs, unhex
 
 HARNESS = "api_life"
 # findings this module knows how to recognise (entries in findings.d/life.json)
-FINDINGS = ["F19", "F21", "F111", "F112", "F113", "F114", "F115", "F116", "F117", "F118", "F119", "F150", "F151", "F152", "F153", "F154", "F155", "F156", "F157", "F158"]
+FINDINGS = ["F19", "F21", "F111", "F112", "F113", "F114", "F115", "F116", "F117", "F118", "F119", "F150", "F151", "F152", "F153", "F154", "F155", "F156", "F157", "F158",
+            "F440", "F441"]
 # a leak report is symbolized by an external process per frame batch: keep it short
 ENV = {"LSAN_OPTIONS": "exitcode=96:max_leaks=2"}
 NSLOT = 6
@@ -1055,7 +1056,15 @@ class HistGen:
         if self.stream != "subval":
             popts |= P_ONLY
         vopts = 0 if popts & P_ONLY == P_ONLY else V_PRESENT
-        self.emit("parse:subtree", O("pinp", s, inst_path(par) or "@%d" % rng.randrange(20), fmt, popts, vopts, d.encode("utf-8", "surrogateescape")))
+        extra = []
+        if self.stream == "subval":
+            # the repaired lyd_parse() validates the children of the parent whatever the options: also full validation (F115) and
+            # no output pointer (F440)
+            if vopts and rng.random() < 0.4:
+                vopts = 0
+            if rng.random() < 0.3:
+                extra = [1]
+        self.emit("parse:subtree", O("pinp", s, inst_path(par) or "@%d" % rng.randrange(20), fmt, popts, vopts, d.encode("utf-8", "surrogateescape"), *extra))
 
     def g_roundtrip(self):
         rng = self.rng
@@ -1718,6 +1727,16 @@ def seed_f119():
     return 2, 4, [O("np", 2, 0, "/lfd:r/ki[k='lfd:k2']", None), O("pinp", 2, "/lfd:r", 0, P_STRICT, V_PRESENT, '<m2 xmlns="urn:lfd"></m2>')]
 
 
+def seed_f440():
+    """lyd_parse_data() with a parent, validation, no output pointer and a document without nodes: lyd_validate(NULL)"""
+    return 0, 4, [O("px", 2, 0, P_ONLY, 0, '<c xmlns="urn:lfa"><li><k>b</k></li></c>'), O("pinp", 2, "/lfa:c/li[k='b']", 0, P_STRICT, V_PRESENT, "", 1)]
+
+
+def seed_f441():
+    """lyd_parse_data() with a parent whose validation fails: *tree keeps pointing to the freed first parsed child"""
+    return 2, 4, [O("px", 2, 0, P_ONLY, 0, '<r xmlns="urn:lfd"><m1>x</m1></r>'), O("pinp", 2, "/lfd:r", 0, P_STRICT, V_PRESENT, '<m2 xmlns="urn:lfd"><q>1</q></m2>')]
+
+
 def seed_f121():
     """LYB parse without LYD_PARSE_OPAQ of data that hold an opaque node with XML prefix data"""
     return 0, FORCE_LSAN | 4, [O("no", 2, None, "lfa", "c", "a&b", "pfx", 1), O("rt", 2, 3, 2, 2, P_ONLY, 0)]
@@ -1874,6 +1893,27 @@ def _has_validating_subparse(line):
     return _ops_with(line, ("pinp",), lambda n, r: int(r[3]) & P_ONLY != P_ONLY)
 
 
+def _has_notree_subparse(line):
+    """a validating lyd_parse_data() with a parent and without an output pointer"""
+    return _ops_with(line, ("pinp",), lambda n, r: int(r[3]) & P_ONLY != P_ONLY and len(r) > 6 and r[6] == "1")
+
+
+def _failed_subparse(line, rep):
+    """a subtree parse (lyd_parse_data with a parent) of the history failed, or succeeded with full validation (and handed out a
+    top-level implicit node)"""
+    rcs = re.search(r"rc=(\S+)", rep)
+    rcs = rcs.group(1).split(",") if rcs else []
+    for i, (name, args, raw) in enumerate(decode_ops(line)):
+        if name == "pinp" and i < len(rcs) and rcs[i] != "-1":
+            try:
+                po, vo = int(raw[3]), int(raw[4])
+            except (ValueError, IndexError):
+                continue
+            if rcs[i] != "0" or (po & P_ONLY != P_ONLY and not (vo & V_PRESENT)):
+                return True
+    return False
+
+
 def _has_lyb_parse_without_opaq(line):
     return _ops_with(line, ("rt",), lambda n, r: r[2] == "2" and not (int(r[4]) & P_OPAQ))
 
@@ -1903,6 +1943,7 @@ UB_SIGNATURES = [
     ("F156", "lyb_print_node_any", "null pointer passed as argument", lambda line: _ops_with(line, ("acs",), lambda n, r: r[3] == "~")),
     ("F157", "lyplg_type_validate_leafref", "member access within null pointer of type 'struct ly set'", lambda line: bool(_ctxopts(line) & 0x400)),
     ("F155", "get_node_pos", "member access within null pointer", lambda line: _ops_with(line, ("fx", "ex"), lambda n, r: True)),
+    ("F440", "lyd_validate", "load of null pointer", lambda line: _has_notree_subparse(line)),
 ]
 
 
@@ -1922,6 +1963,9 @@ def classify(component, what, case):
                 for fid, fn, frag, cond in UB_SIGNATURES:
                     if fr and fr[0] == fn and frag in msg and (cond is None or cond(line)):
                         return fid
+            if re.search(r"src/validation\.c:\d+:\d+: runtime error: load of null pointer of type 'struct lyd_node \*'", err) and _has_notree_subparse(line):
+                # F440 when the report was written but the process did not get as far as the summary line (killed by the alarm)
+                return "F440"
             return None
         kind, frames, freedby = m.group(1), m.group(2).split(","), (m.group(3) or "").split(",")
         if kind == "heap-use-after-free" and _has_f19_op(line) and "lyd_hash_table_val_equal" in frames and \
@@ -1978,8 +2022,12 @@ def classify(component, what, case):
     if law in ("drec", "dref", "mid", "warn", "leak") and _has_multierr_parse(line) and \
             (law != "leak" or leakat.startswith(("lyd_create_", "lyd_parser_", "lydxml_", "lydjson_", "lyd_new_implicit", "ly_set_", "-"))):
         return "F113"
-    if law == "leak" and leakat.startswith(("lyd_create_", "lyd_new_implicit")) and _has_full_validation_subparse(line):
+    if law in ("leak", "drec", "dref", "warn") and leakat.startswith(("lyd_create_", "lyd_new_implicit")) and _has_full_validation_subparse(line):
+        # the lost implicit nodes (and, when they are terminal nodes, the dictionary strings they hold)
         return "F115"
+    if law == "onn" and _failed_subparse(line, rep):
+        # *tree of a failed lyd_parse_data(parent) is the first child of the parent / the (freed) first parsed child
+        return "F441"
     if law in ("leak", "eint") and _ops_with(line, ("ac", "acs"), lambda n, r: len(r) > 4 and r[4] == "1") and \
             (law == "eint" or leakat.startswith(("ly_set_add<xml_print_ns", "-"))):
         return "F116"
@@ -2137,7 +2185,7 @@ def run_life(cx, workers=None):
             "merge/diff), validated subtree parses (F119, 2%), late-failing loads of a module whose submodule derives identities from a surviving module under a prefix of its own (4%); non-trivial = distinct history whose reply reports at least one successful and one failing library call")
 
     hist = []       # (set, ctxopts, ops, kinds, stream)
-    for s in (seed_f19(), seed_f19_key(), seed_f21(), seed_f111(), seed_f112(), seed_f113(), seed_f114(), seed_f115(), seed_f116(), seed_f119(), seed_f121(), seed_f123(), seed_f123b(), seed_f124(), seed_f125(), seed_f126(), seed_f127(), seed_f128(0), seed_f128(1)):
+    for s in (seed_f19(), seed_f19_key(), seed_f21(), seed_f111(), seed_f112(), seed_f113(), seed_f114(), seed_f115(), seed_f116(), seed_f119(), seed_f440(), seed_f441(), seed_f121(), seed_f123(), seed_f123b(), seed_f124(), seed_f125(), seed_f126(), seed_f127(), seed_f128(0), seed_f128(1)):
         hist.append((s[0], s[1], s[2], ["seed"] * len(s[2]), "seed"))
     hist += exhaustive_small(gen)
     n = int(os.environ.get("VERIF_LIFE_N", "0")) or cx.n(2200, 30000)
